@@ -240,6 +240,11 @@ func VerifC15Compact() {
 			nd.Assert(out[i] != nil && out[i].(int) == want[i], "compact-reference")
 		}
 	}
+	// exactly the nils go: false, 0, the empty string and empty collections are not nil
+	v2, err2 := fEval("a | compact | size", map[string]any{"a": []any{false, nil, 0, "", []any{}, nil, map[string]any{}, 0.0}})
+	nd.Assert(err2 == nil && v2.(int) == 6, "compact-keeps-falsy-non-nil-values")
+	v3, err3 := fEval("a | compact | size", map[string]any{"a": []bool{false, true, false}})
+	nd.Assert(err3 == nil && v3.(int) == 3, "compact-keeps-false-in-typed-slices")
 	nd.Reach("C15.compact")
 }
 
